@@ -34,7 +34,10 @@ where
     where
         E: Sum + Send,
     {
-        let indptr = self.indptr().into_raw_storage();
+        // The offsets of a view made by `slice_outer` do not start at zero:
+        // make them relative to `indices` and `data` before slicing.
+        let indptr = self.indptr();
+        let indptr = indptr.to_proper();
         let indices = self.indices();
         let data = self.data();
         indptr
@@ -62,7 +65,9 @@ where
         W::Iter: IndexedParallelIterator,
         W::Item: Sum + Mul<Output = W::Item> + FromPrimitive,
     {
-        let indptr = self.indptr().into_raw_storage();
+        // See `edge_cut` above.
+        let indptr = self.indptr();
+        let indptr = indptr.to_proper();
         let indices = self.indices();
         indptr
             .par_iter()
